@@ -1,5 +1,7 @@
 """Property -> rule set registry (what each check decides, in words, goes into the evidence)."""
 from . import rules_tok as T
+from . import rules_reader as RD
+from . import rules_buffer as B
 
 PROPS = {}
 
@@ -26,3 +28,33 @@ prop('C19',
      'beyond "gets the fallback category".',
      assumptions=['Buffer.forward/peek/backward/hasNext behave as their contracts (rules R20.* under C20)',
                   'Token concatenation keeps the left position and concatenates left to right (rule R13.b under C13)'])
+
+
+prop('C06',
+     [RD.r06_a, RD.r06_b_reader, T.r06_b_tokens, T.r06_a_tokens, RD.r06_c, T.r19_d, RD.r06_d, RD.r06_e, RD.r06_g,
+      B.r20_c],
+     'Three static analyses.  (1) A context-propagating dataflow over reader.py and the composite Buffer scans: per '
+     'path it tracks how many items are known to exist at the token cursor, whether the cursor is exhausted and '
+     'whether the current loop iteration has advanced the cursor; callees are analysed in the caller\'s actual '
+     'context to a fixpoint over the recursive call graph.  (2) The tokenizer abstract interpretation (see C19) for '
+     'dereferences, rule exhaustiveness and driver progress.  (3) Call-graph and dominance rules for raised '
+     'exception types, constant subscripts and constant-table look-ups.',
+     'R06.a no next() without an item (StopIteration -> RuntimeError leak); R06.b no attribute access on a peek that '
+     'may be None (reader, Buffer scans, tokenizer rules); R06.c / R19.d every reader loop and every tokenizer round '
+     'advances; R06.d only EOFError/TypeError/AssertionError are raised explicitly in parse-reachable code; R06.e '
+     'constant subscripts of argument lists are guarded; R06.g constant-table look-ups have pinned keys; R20.c the '
+     'buffer reports exhaustion instead of leaking IndexError/StopIteration.',
+     'exceptions from non-constant subscripts and .index() in general; recursion depth; wall-clock time; memory.')
+
+prop('C20',
+     [B.r20_a, B.r20_b, B.r20_c, B.r20_d],
+     'Affine abstract interpretation of utils.Buffer: the cursor field (identified as what `position` returns) is '
+     'tracked as an affine form over its entry value, the integer parameters and one iteration counter per loop '
+     '(Karr-style invariant for paired increments); methods are summarised with symbolic arguments and the '
+     'summaries are substituted at internal call sites; raise sets are propagated through try/except.  The '
+     'per-operation contracts compose over every history of operations by induction.',
+     'R20.a the non-moving operations have cursor delta 0 on every exit; R20.b forward/backward/next move by what '
+     'they say and return the slice/item at the entry position, backward checks underflow first; R20.c exhaustion is '
+     'reported, not leaked; R20.d the queue is append-only and filled only from the iterator.',
+     'returned values beyond slice bounds; the fill-loop bound (relation between cursor and queue length); '
+     'wrap-around of negative peeks at position 0.')
